@@ -29,7 +29,7 @@ RULE = ('one foreign .trashinfo per case (absolute / relative Path, percent-esca
         'distinct = (content features, trash-dir kind, home mode)')
 ASSUMPTIONS = ['for a relative Path in the home trash the spec defines no base: only agreement between the commands is required there',
                'trash-rm has no --trash-dir option and is skipped for custom trash directories']
-PROBES = ['path-value-over-4k', 'trash-dir-through-cross-volume-symlink', 'several-trash-dir-options', 'four-way-agree', 'relative-path', 'absolute-path', 'home-own-volume', 'custom-trash-dir', 'duplicate-keys', 'crlf', 'escapes',
+PROBES = ['twin-entries', 'path-value-over-4k', 'trash-dir-through-cross-volume-symlink', 'several-trash-dir-options', 'four-way-agree', 'relative-path', 'absolute-path', 'home-own-volume', 'custom-trash-dir', 'duplicate-keys', 'crlf', 'escapes',
           'non-utf8-escape', 'empty-threshold-checked', 'rm-checked', 'restore-checked', 'undated']
 TECHNIQUE = 'deterministic simulation, four-way differential of the readers on rebuilt worlds plus comparison with an independent spec decoder; TRASH_DATE sweeps the purge threshold'
 LEVEL_TEXT = 'seeded exploration of .trashinfo contents x trash-dir kinds; agreement of list / restore / rm / empty on path and date, and with the spec'
@@ -127,13 +127,18 @@ def gen(rng):
     if longpath:
         feats.append('path-value-over-4k')
     G.add_trashed(steps, tdir, 'fe', None, None, rng.choice(['file', 'dir']), info_content=content, tag='f')
+    twin = rng.random() < 0.1
+    if twin:
+        # a second entry that reads exactly the same (the same path trashed twice within one second, or copied by another tool):
+        # every command sees two entries
+        G.add_trashed(steps, tdir, 'fe_1', None, None, 'file', info_content=content, tag='f-twin')
     if rng.random() < 0.5:
         G.add_trashed(steps, tdir, 'neighbour', TG.pct(base + '/neighbour' if top is None else 'docs/neighbour'), '2022-02-02T02:02:02', 'file', tag='n')
     return {
         'world': {'mounts': L['mounts'], 'steps': steps},
         'procs': [{'argv': ['trash-list'], 'env': env, 'cwd': '/', 'uid': uid}],
         'dirsalt': rng.randrange(1 << 30),
-        'note': {'tdir': tdir, 'custom': bool(custom), 'feats': feats, 'home_mode': hm, 'other_td': other_td},
+        'note': {'tdir': tdir, 'custom': bool(custom), 'feats': feats, 'home_mode': hm, 'other_td': other_td, 'twin': twin},
     }
 
 
@@ -203,6 +208,12 @@ def check(sim, case, st):
         return res
     # our line: the one that is not the neighbour's
     lines = [ln for ln in OR.phys_lines(rl.outs) if not ln.endswith('/neighbour')]
+    if note.get('twin'):
+        st.probes['twin-entries'] += 1
+        if len(lines) != 2 or lines[0] != lines[1]:
+            bad('list-twin-lines', 'two entries with identical .trashinfo: trash-list prints %r' % (lines,))
+            return res
+        lines = lines[:1]
     text = '\n'.join(lines)
     if len(text) < 20:
         bad('list-no-line', 'trash-list printed no line for the entry; stdout %r stderr %r' % (rl.outs, rl.errs[:300]))
@@ -226,6 +237,9 @@ def check(sim, case, st):
         bad('restore-no-line', 'trash-restore / does not offer the entry that trash-list shows as %r; stdout %r stderr %r' % (p_list, rr.outs[:300], rr.errs[:300]))
     else:
         st.probes['restore-checked'] += 1
+        if note.get('twin') and len(holder['items']) != 2:
+            bad('list-vs-restore-count', 'two entries with identical .trashinfo: trash-list prints two lines, trash-restore offers %d: %r'
+                % (len(holder['items']), holder['items']))
         _i, d_res, p_res = holder['items'][0]
         if p_res != p_list:
             bad('list-vs-restore-path', 'trash-list prints %r, trash-restore prints %r' % (p_list, p_res))
